@@ -30,6 +30,9 @@ def units(tier):
     us.append(ground_unit("crc.ground_lemmas", crc_lemmas.ground_lemmas))
     from pyvc import clientrun
     us.append(clientrun.unit("parse_ignores_checksum_when_not_validating", clientrun.lemma_validate_off))
+    from spec import api
+    from props.common import ground_unit as _gu
+    us.append(_gu("api.signatures", api.signature_lemmas(['pyrtcm.rtcmreader.RTCMReader.parse', 'pyrtcm.rtcmhelpers.calc_crc24q'])))
     return us
 
 
